@@ -89,6 +89,7 @@ BOUNDS = {
                 "SURF(6) classes with sets <=2, grids 3x3 3x4 4x4 5x5 with sets <=1, all 71 holey 3x3 grids, closed specimens with sets <=1, 3 tori minus 1 face",
 }
 PINNED = {"surf3": 2, "surf4": 22, "surf5": 410, "surf6c": 28}
+UNIT_EXPONENTS = (-200, 200)        # unit-of-length deviation: every coordinate x 2^e (measured range of the unchanged tree: see BOUNDS)
 
 SMALL_BATCH = 12
 
@@ -213,12 +214,12 @@ def tasks(tier):
     smax = 3 if thorough else 2
     out = []
 
-    def add(specs, geoms=GEOMS, feats=FEATS, smax_=None, parts=1, rerun=False):
+    def add(specs, geoms=GEOMS, feats=FEATS, smax_=None, parts=1, rerun=False, **dev):
         for geom in geoms:
             for feat in feats:
                 for part in range(parts):
-                    out.append({"meshes": specs, "geom": geom, "feat": feat, "smax": smax if smax_ is None else smax_,
-                                "part": [part, parts], "rerun": rerun})
+                    out.append(dict({"meshes": specs, "geom": geom, "feat": feat, "smax": smax if smax_ is None else smax_,
+                                     "part": [part, parts], "rerun": rerun}, **dev))
 
     # ---- SURF(<=5): every connected labelled complex
     small = []
@@ -308,10 +309,10 @@ def tasks(tier):
     # ---- call histories on one cutter object (breadth-first over the public calls after run())
     depth = 4 if thorough else 3
 
-    def hist(specs, feats, sets, geoms=("ties",)):
+    def hist(specs, feats, sets, geoms=("ties",), **dev):
         for geom in geoms:
             for feat in feats:
-                out.append({"meshes": specs, "geom": geom, "feat": feat, "history": depth, "sets": sets})
+                out.append(dict({"meshes": specs, "geom": geom, "feat": feat, "history": depth, "sets": sets}, **dev))
     hm = [["surf", 3, 0]] + rr
     for i in range(0, len(hm), 3):
         hist(hm[i:i + 3], ("none", "detect"), 2, GEOMS if thorough else ("ties",))
@@ -332,6 +333,57 @@ def tasks(tier):
     hist([["torus", 3, 3, 0]], ("none", "detect"), 1 if thorough else "few", GEOMS)
     for m in _torus_masks(3, 3, 1)[:3 if thorough else 1]:
         hist([["torus", 3, 3, m]], ("none", "detect"), "few")
+    # ---- deviations: a representative subset of the above with (a) every coordinate multiplied by 2^e, (b) vertex rings left
+    #      unsorted (mouette.config.sort_neighborhoods = False) while the mesh is built and cut, (c) every input face listed first
+    #      in turn, under both values of the switch
+    nd = ("none", "detect")
+    dgrids = [(3, 3), (4, 4)] + ([(3, 4), (5, 5)] if thorough else [])
+    dmasks = masks33[::3 if thorough else 9]
+    for dev in [{"unit": e} for e in UNIT_EXPONENTS] + [{"sort": False}]:
+        for i in range(0, len(hm), 5):
+            add(hm[i:i + 5], feats=nd, smax_="dev", **dev)
+        for i in range(0, len(sixc), 7):
+            add(sixc[i:i + 7], feats=nd, smax_="dev", **dev)
+        for (k, l) in dgrids:
+            for mode in ("tri", "tri2") if thorough else ("tri",):
+                add([["grid", k, l, mode, "flat"]], feats=("none", "border") if (k, l) == (3, 3) else ("none",), smax_="dev", **dev)
+                for z in ("fold", "bump") + (("plateau",) if min(k, l) >= 4 else ()):
+                    add([["grid", k, l, mode, z]], feats=("detect",), smax_="dev", **dev)
+        add([["holey", 3, 3, "tri", "flat", m] for m in dmasks], geoms=GEOMS if thorough else ("generic",), feats=("none",), smax_="dev", **dev)
+        add([["holey", 3, 3, "tri", "fold", m] for m in dmasks], geoms=GEOMS if thorough else ("generic",), feats=("detect",), smax_="dev", **dev)
+        add([["holey", 5, 5, "tri", "flat", pants[0]]], feats=("none",), geoms=("generic",), smax_="dev", **dev)
+        add([["holey", 5, 5, "tri", "fold", pants[0]]], feats=("detect",), geoms=("generic",), smax_="dev", **dev)
+        for name in ("octahedron", "icosahedron", "csaszar_torus"):
+            add([["named", name]], feats=nd, smax_="dev", **dev)
+        add([["torus", 3, 3, 0]], feats=nd, smax_="dev", **dev)
+        add([["torus", 3, 3, m] for m in _torus_masks(3, 3, 1)[:3 if thorough else 1]], feats=nd, smax_="dev", **dev)
+        # call histories of one cutter under the deviation
+        hist(hm[:3], nd, "few", **dev)
+        hist(hm[3:6], nd, "few", **dev)
+        hist([["grid", 3, 3, "tri", "flat"]], ("none",), "few", **dev)
+        hist([["grid", 3, 3, "tri", "fold"]], ("detect",), "few", **dev)
+        hist([["named", "octahedron"]], nd, "few", **dev)
+        hist([["torus", 3, 3, 0]], ("none",), "few", ("generic",), **dev)
+        if thorough:
+            for i in range(0, len(sixc), 5):
+                hist(sixc[i:i + 5], nd, "few", **dev)
+            hist([["named", "csaszar_torus"]], nd, "few", GEOMS, **dev)
+    for srt in (True, False):
+        dev = {"rot": True} if srt else {"rot": True, "sort": False}
+        rg = GEOMS if thorough else ("ties",)
+        for i in range(0, len(hm), 5):
+            add(hm[i:i + 5], geoms=rg, feats=nd, smax_="dev", **dev)
+        for i in range(0, len(sixc), 4):
+            add(sixc[i:i + 4], geoms=rg, feats=nd, smax_="dev" if thorough else "few", **dev)
+        add([["grid", 3, 3, "tri", "flat"]], geoms=rg, feats=("none",), smax_="few", **dev)
+        add([["grid", 3, 3, "tri", "fold"]], geoms=rg, feats=("detect",), smax_="few", **dev)
+        add([["grid", 3, 3, "tri", "bump"]], geoms=rg, feats=("detect",), smax_="few", **dev)
+        add([["named", "octahedron"]], geoms=rg, feats=nd, smax_="few", **dev)
+        add([["torus", 3, 3, 0]], geoms=rg, feats=nd, smax_="few", **dev)
+        add([["named", "csaszar_torus"]], geoms=rg, feats=nd, smax_="few", **dev)
+        if thorough:
+            add([["grid", 4, 4, "tri", "plateau"]], feats=("detect",), smax_="few", **dev)
+            add([["holey", 3, 3, "tri", "fold", m] for m in dmasks], feats=("detect",), smax_="few", **dev)
     return out
 
 
@@ -540,6 +592,26 @@ def _judge(T: InputTopology, pts, S, obs):
 
 
 # ------------------------------------------------------------------------------------------ running the real code
+class _Plain:
+    """with ses.plain(): ... - runs of the same session without the deviations of the task; the process-global switch is put
+    back to the task's value on exit, whatever happens."""
+
+    def __init__(self, ses):
+        self.ses = ses
+
+    def __enter__(self):
+        ses = self.ses
+        self.saved = (ses.unit, ses.sort, ses.rot, ses.M.config.sort_neighborhoods)
+        ses.unit, ses.sort, ses.rot = 0, True, 0
+        ses.M.config.sort_neighborhoods = True
+        return ses
+
+    def __exit__(self, *a):
+        ses = self.ses
+        ses.unit, ses.sort, ses.rot, ses.M.config.sort_neighborhoods = self.saved
+        return False
+
+
 def _observe(m, cutter, want_views):
     """Read every output of a finished cutter into plain python values."""
     obs = {}
@@ -585,17 +657,36 @@ def _subsets(n, smax):
 class Session:
     """Runs of one task: resolved inputs, and the minimal failing configurations already derived (for classes)."""
 
-    def __init__(self, M, rep):
+    def __init__(self, M, rep, unit=0, sort=True):
         self.M, self.rep = M, rep
         self.inputs = {}
         self.minimal = {}
         self.minimal_hist = {}
+        self.plain_cls = {}
+        # deviations of the task (see "Deviations" in the module docstring): unit of length 2^unit, config.sort_neighborhoods,
+        # number of the input face that is listed first (set per mesh by run_task)
+        self.unit, self.sort, self.rot = int(unit), bool(sort), 0
+
+    def deviating(self):
+        return self.unit != 0 or not self.sort or self.rot != 0
+
+    def plain(self):
+        """Context: the same session without any deviation (unit scale, sorted rings, faces in the order of the family)."""
+        return _Plain(self)
 
     def input(self, spec, geom):
-        key = (repr(spec), geom)
+        key = (repr(spec), geom, self.unit, self.rot)
         if key not in self.inputs:
             name, pts, faces = _resolve(spec, geom)
             faces = [tuple(f) for f in faces]
+            if self.rot:
+                k = self.rot % len(faces)
+                faces = faces[k:] + faces[:k]
+                name += ":face%d_listed_first" % k
+            if self.unit:
+                sc = 2.0 ** self.unit                       # exact: every coordinate is a double far from over / underflow
+                pts = [tuple(float(x) * sc for x in p) for p in pts]
+                name += ":x2^%d" % self.unit
             ok = _connected_manifold(pts, faces)
             self.inputs[key] = (name, pts, faces, InputTopology(len(pts), faces) if ok else None)
         return self.inputs[key]
@@ -662,14 +753,38 @@ class Session:
         res["obs"] = obs
         res["feature_path"] = bool(getattr(cutter, "_has_features", False))
         res["result"], res["evals"], res["fails"] = _judge(T, pts, S, obs)
+        if self.unit:
+            self.same_cut_as_unit_scale(spec, geom, feat, S, first, res)
         return res
+
+    def same_cut_as_unit_scale(self, spec, geom, feat, S, first, res):
+        """Unit of length: all coordinates were multiplied by an exact power of two, so every length / barycentre distance the
+        cutter compares is the unit-scale one times that power, exactly: the cut (documented as the optimal one, a notion without
+        a unit) is the same set of edges as on the unit-scale twin (same mesh combinatorics, same argument form)."""
+        e, sort, rot = self.unit, self.sort, self.rot
+        with self.plain():
+            self.sort, self.rot = sort, rot
+            self.M.config.sort_neighborhoods = sort
+            tw = self.execute(spec, geom, feat, S, first, form=res["container_form"])
+        res["unit_twin"] = tw["result"]
+        if tw.get("obs") is None or tw["obs"]["cut_raw"] is None or res["obs"]["cut_raw"] is None:
+            return                                              # the unit-scale run fails by itself: reported by the main cases
+        if tw["feature_edges"] != res["feature_edges"]:
+            res["unit_detector_differs"] = True                 # the detector is C15's subject: the premise of the comparison is gone
+            return
+        res["evals"] += 1
+        res["unit_compared"] = len(res["obs"]["cut_raw"])
+        if tw["obs"]["cut_raw"] != res["obs"]["cut_raw"]:
+            a, b = set(tw["obs"]["cut_pairs"] or ()), set(res["obs"]["cut_pairs"] or ())
+            res["fails"].append({"group": "unit", "sub": "unit.same_cut", "callee": "cut_edges", "kind": "mismatch:cut_edges_differ_from_unit_scale",
+                                 "extra": {"unit_of_length": "2^%d" % e, "cut_only_at_unit_scale": sorted(a - b)[:8], "cut_only_at_this_scale": sorted(b - a)[:8]}})
 
     # -------------------------------------------------------------------------------- input class of a failure
     def classify(self, spec, geom, feat, S, fail, res, first):
         """Coarse class of a failing input = class of a *minimal failing configuration* derived from it by re-running the
         real code: singular vertices are dropped one at a time while the same clause keeps failing, and the geometry alphabet
         is switched to see whether the failure depends on it. Returns (class, derivation)."""
-        key = (repr(spec), geom, feat, first is not None, fail["sub"], fail["kind"])
+        key = (repr(spec), geom, feat, first is not None, fail["sub"], fail["kind"], self.unit, self.sort, self.rot)
         known = self.minimal.setdefault(key, [])
         for smin, cls, why in known:
             if smin <= set(S):
@@ -692,8 +807,34 @@ class Session:
             # a failure that a fresh mesh shows as well is not about the second run: the main tasks report it
             cls = None if same(self.execute(spec, geom, feat, cur, None)) else cls + "|second-run-only"
         why = {"minimal_failing_singularities": cur, "geometry": gcls, "features": fcls}
+        if cls is not None and self.deviating():
+            # a failure that the plain configuration (unit scale, sorted rings, family face order) shows as well is not about the
+            # deviation: the main tasks report it.  Otherwise the class gets the suffix of the task (Report.class_suffix)
+            with self.plain():
+                if same(self.execute(spec, geom, feat, cur, first)) or cls in self.plain_classes(spec, geom, feat, fail, len(cur), first):
+                    cls = None
+            why["deviation"] = {"unit_of_length": "2^%d" % self.unit, "config.sort_neighborhoods": self.sort, "input_face_listed_first": self.rot}
         known.append((frozenset(cur), cls, why))
         return cls, why
+
+    def plain_classes(self, spec, geom, feat, fail, size, first):
+        """(called inside 'with self.plain()') Classes of the failures of the same clause that the plain configuration shows on this mesh
+        for the singularity sets of the given size: a deviation failure of one of these classes would carry the fingerprint (suffix apart)
+        of a failure that does not need the deviation - ties between equally short paths are broken by ring / face order, so WHICH
+        singularity sets run into a defect of the plain code may change under a deviation."""
+        key = (repr(spec), geom, feat, first is not None, fail["sub"], fail["kind"], size)
+        if key not in self.plain_cls:
+            found = set()
+            T = self.input(spec, geom)[3]
+            if size <= 2:
+                for S in itertools.combinations(range(T.n), size):
+                    r = self.execute(spec, geom, feat, list(S), first)
+                    for f in r["fails"]:
+                        if f["sub"] == fail["sub"] and f["kind"] == fail["kind"]:
+                            found.add(self.classify(spec, geom, feat, list(S), f, r, first)[0])
+                            break
+            self.plain_cls[key] = found
+        return self.plain_cls[key]
 
     # -------------------------------------------------------------------------------- one recorded case
     def case(self, spec, geom, feat, S, first=None):
@@ -712,7 +853,7 @@ class Session:
             seen_groups.add(fail["group"])
             cls, why = self.classify(spec, geom, feat, S, fail, res, first)
             if cls is None:
-                rep.count("second_run_failure_also_on_fresh_mesh")
+                rep.count("deviation_failure_also_on_plain_configuration" if self.deviating() else "second_run_failure_also_on_fresh_mesh")
                 continue
             obs = res["obs"] or {}
             detail = {"mesh": res["name"], "points": [list(p) for p in res["pts"]], "faces": [list(f) for f in T.faces],
@@ -724,6 +865,10 @@ class Session:
                                    "ref_vertex": sorted(obs["ref"].items()) if obs.get("ref") else None}}
             if first is not None:
                 detail["first_cutter_on_same_mesh"] = list(first)
+            if self.deviating():
+                detail["deviation"] = {"unit_of_length (all coordinates multiplied by)": "2^%d" % self.unit,
+                                       "mouette.config.sort_neighborhoods": self.sort, "input_face_listed_first": self.rot}
+            detail["singularities_passed_as"] = res.get("container_form")
             detail.update(fail["extra"])
             rep.violation("C16." + fail["sub"], "SingularityCutter." + fail["callee"], fail["kind"], cls, detail)
         # ---- bookkeeping
@@ -739,6 +884,26 @@ class Session:
             rep.flag("cutter_took_feature_path")
         if first is not None:
             rep.flag("second_run_on_used_mesh")
+        if self.deviating():
+            nontrivial_cut = obs is not None and obs["cut_pairs"] is not None and len(obs["cut_pairs"]) > len(T.border)
+            if self.unit:
+                rep.flag("dev:unit=2^%d" % self.unit)
+                if res.get("unit_detector_differs"):
+                    rep.count("unit:detector_found_other_features_than_at_unit_scale")
+                if res.get("unit_compared") is not None:
+                    rep.count("unit:cuts_compared_with_unit_scale")
+                    if nontrivial_cut:
+                        rep.flag("dev:unit=2^%d:interior_cut_compared:%s" % (self.unit, "crease" if res["feature_path"] else "plain"))
+            if not self.sort:
+                rep.flag("dev:sort=False" + (":face_order" if self.rot else ""))
+                if nontrivial_cut:
+                    rep.flag("dev:sort=False:interior_cut:" + ("crease" if res["feature_path"] else "plain"))
+                if self.M.config.sort_neighborhoods is not False:
+                    rep.count("config_switch_not_in_force")
+            elif self.rot:
+                rep.flag("dev:face_order")
+            if self.rot and nontrivial_cut:
+                rep.flag("dev:face_order:interior_cut:" + ("crease" if res["feature_path"] else "plain"))
         if res["result"] == "uncut":
             rep.flag("sphere_left_uncut")
         if T.loops == 0 and T.genus == 0 and len(S) >= 2:
@@ -1073,10 +1238,9 @@ def _history_sets(T, rule):
     return _subsets(n, int(rule))
 
 
-def run_history_task(task, rep: Report):
-    import mouette as M
+def run_history_task(task, rep: Report, M, unit, sort):
     geom, feat, depth = task["geom"], task["feat"], task["history"]
-    ses = Session(M, rep)
+    ses = Session(M, rep, unit, sort)
     for spec in task["meshes"]:
         name, pts, faces, T = ses.input(spec, geom)
         if T is None:
@@ -1102,25 +1266,78 @@ def run_history_task(task, rep: Report):
             rep.flag("history:" + tw["fcls"]); rep.flag("history:topo:" + T.topo_coarse())
             if T.nontrivial(S):
                 rep.case(("history", tw["name"], geom, feat, tuple(S)))
+            if ses.deviating():
+                rep.flag("history:dev:" + ("unit=2^%d" % unit if unit else "sort=False"))
+                if tw.get("unit_compared") is not None:
+                    rep.count("unit:cuts_compared_with_unit_scale")
             for hist, fail, final in found:
                 mini = hs.minimal(hist, fail, final)
                 cls = "hist=" + (">".join(mini) if mini else "run-only")
+                if ses.deviating():
+                    # the same minimal history failing the same way without the deviation: reported by the plain history tasks
+                    with ses.plain():
+                        hs0 = HistorySearch(ses, spec, geom, feat, S)
+                        r0 = hs0.run(mini) if hs0.twin.get("obs") is not None else None
+                    if r0 is not None and any(f["sub"] == fail["sub"] and f["kind"] == fail["kind"] for f in (r0["final"] if final else r0["fails"][-1])):
+                        rep.count("deviation_failure_also_on_plain_configuration")
+                        continue
                 detail = {"mesh": tw["name"], "points": [list(p) for p in pts], "faces": [list(f) for f in T.faces], "singularities": list(S),
                           "singularities_passed_as": "list", "geometry": geom,
                           "detector": {"none": None, "border": "FeatureEdgeDetector(only_border=True)", "detect": "FeatureEdgeDetector()"}[feat],
                           "topology": T.topo_class(), "history_after_run": list(hist), "minimal_failing_history": list(mini),
                           "failure_seen": "closing re-check of all clauses after the history" if final else "right after the last call of the history"}
+                if ses.deviating():
+                    detail["deviation"] = {"unit_of_length (all coordinates multiplied by)": "2^%d" % unit, "mouette.config.sort_neighborhoods": sort}
+                    detail["points"] = [list(p) for p in tw["pts"]]
                 detail.update(fail["extra"])
                 rep.violation("C16." + fail["sub"], fail["callee"], fail["kind"], cls, detail)
 
 
+def _rings(M, pts, faces, sort):
+    """Vertex rings of a freshly built mesh under one value of the switch (vacuity guard: the switch has an effect)."""
+    old = M.config.sort_neighborhoods
+    M.config.sort_neighborhoods = sort
+    try:
+        m = F.build_surface(pts, faces)
+        return [[int(w) for w in m.connectivity.vertex_to_vertices(v)] for v in range(len(pts))]
+    finally:
+        M.config.sort_neighborhoods = old
+
+
 def run_task(task, rep: Report):
-    if task.get("history"):
-        return run_history_task(task, rep)
+    """Deviations of a task: "unit": e (every coordinate x 2^e), "sort": False (mouette.config.sort_neighborhoods while the meshes are
+    built and processed), "rot": true (every input face listed first in turn).  The process-global switch is restored whatever happens."""
     import mouette as M
+    unit, sort = int(task.get("unit", 0)), bool(task.get("sort", True))
+    rep.class_suffix += (":unit=2^%d" % unit if unit else "") + ("" if sort else ":sort=False") + (":face_order" if task.get("rot") else "")
+    old = M.config.sort_neighborhoods
+    M.config.sort_neighborhoods = sort
+    try:
+        if task.get("history"):
+            run_history_task(task, rep, M, unit, sort)
+        else:
+            run_main_task(task, rep, M, unit, sort)
+    finally:
+        M.config.sort_neighborhoods = old
+    if M.config.sort_neighborhoods is not True:
+        rep.count("config_switch_not_restored")
+
+
+def _deviation_sets(T):
+    """Singularity sets of the deviation tasks: all of <= 2 vertices on <= 6 vertices; beyond, all of <= 1 + the chosen pairs + all."""
+    if T.n <= 6:
+        return _subsets(T.n, 2)
+    out = _subsets(T.n, 1)[:-1]
+    for s_ in _history_sets(T, "few"):
+        if s_ not in out:
+            out.append(s_)
+    return out
+
+
+def run_main_task(task, rep: Report, M, unit, sort):
     geom, feat, smax = task["geom"], task["feat"], task["smax"]
     part, parts = task["part"]
-    ses = Session(M, rep)
+    ses = Session(M, rep, unit, sort)
     for spec in task["meshes"]:
         name, pts, faces, T = ses.input(spec, geom)
         if T is None:
@@ -1128,7 +1345,18 @@ def run_task(task, rep: Report):
             continue
         rep.count("meshes")
         rep.count("family:" + spec[0] + (str(spec[1]) if spec[0] == "surf" else ""))
-        sets = _subsets(T.n, smax)
+        if not sort and _rings(M, pts, faces, False) != _rings(M, pts, faces, True):
+            rep.flag("dev:sort=False:some_vertex_ring_is_listed_in_another_order")
+        if task.get("rot"):
+            # every input face listed first in turn (face 0 is the root of the dual search; edge 0 is one of its sides)
+            for k in range(1, len(T.faces)):
+                ses.rot = k
+                Tk = ses.input(spec, geom)[3]
+                for S in (_history_sets(Tk, "few") if smax == "few" else _deviation_sets(Tk)):
+                    ses.case(spec, geom, feat, S)
+            ses.rot = 0
+            continue
+        sets = _deviation_sets(T) if smax == "dev" else _subsets(T.n, smax)
         if task.get("rerun"):
             for first in ([0], list(range(T.n))):
                 for S in sets:
